@@ -58,6 +58,9 @@ type Exec struct {
 	inE2       bool
 	eqMemo     map[[2]interface{}]*smt.Term
 	OpenRGB    StubFn
+	RepoDir    string
+	fs         *fsModel
+	notExist   Value
 	curG       int         // goroutine currently executed by the scheduler (+1), 0 = harness main
 	protected  map[int]int // object id -> sync cell of the mutex that must be held to touch it
 	WatcherChan Value
